@@ -12,7 +12,7 @@ CHECKS = {
             "for tpCN, extraction of the proposal law from the real _propose under a scripted tape, validation on the tape lattice, and comparison of the real acceptance factor with the Metropolis-Hastings ratio for every ordered grid pair; tape-lattice enumeration for hard walls and image-sum detailed balance for folds",
             "A: the real one-step RWM kernel is executed from every cell of 1-d (M=4,5,6; all 3^M landscapes) and 2-d (3x3, 4x3) lattices with every symbol of a symmetric innovation alphabet, for beta in {0.25,1}, every hard/periodic/reflective assignment and 1-2 clusters; "
             "pi_i P_ij = pi_j P_ji and pi P = pi are checked to 1e-12 on the resulting matrix (exact for RWM, whose correctness uses only the symmetry of the innovation law). "
-            "B: for every parameter point (d<=3, K<=2, nu in {0.5,1,5,1e6}, three scale matrices, two mode centres, sigma in {0.1,0.5,0.99}) the affine scale-mixture model of the proposal is extracted from the code, replayed on the tape lattice "
+            "B: for every parameter point (d<=3, K<=2, nu in {0.5,1,5,1e6}, integer-typed nu arrays/lists, three scale matrices, two mode centres, sigma in {0.1,0.5,0.99}) the affine scale-mixture model of the proposal is extracted from the code, replayed on the tape lattice "
             "(g in {0.25,1,4} x z in {-1,0,1}^d) and the code's acceptance factor is compared with log Q(v->u)-log Q(u->v) for all ordered pairs of a 5^d grid. C: alpha and the accept decision on a lattice of likelihood differences (incl. -inf, nan). "
             "D: on the tape lattice near hard walls the kernel must draw once and treat outside proposals as rejections; folded tpCN/RWM kernels are checked in 1-d with 6001-term image sums.",
             "Trusted: closed-form multivariate-t marginal of a normal scale mixture; image sums truncated at |k|<=3000 (tails < 1e-9 for nu>=2). Step-size adaptation across steps is outside the property. tpCN with periodic/reflective coordinates is a recorded known finding.",
@@ -28,7 +28,7 @@ CHECKS = {
             "explicit enumeration of reweighting transitions: synthetic history lattice x parameters on the real Reweighter, plus every reachable transition of deviation-bounded runs, against a reference MIS model",
             "One real Reweighter.run() transition is executed from every state of a finite lattice of histories x (n_particles, ess_ratio, ESS / volume-variation target) and from "
             "every reachable state of runs whose per-iteration random tape deviates in <=1 (quick) / <=2 (thorough) places from the default, over a covering array of the schedule-relevant options; "
-            "monotonicity, range, the ESS guarantee on every advance and the coherence of recorded beta/ESS/logZ/weights are checked on each transition. Also: a boundary-value family placing the ESS crossing (and beta_prev) inside the last BETA_TOLERANCE cell, every sequence of scripted batch types (depth 4/5) through ONE Reweighter instance, and a kernel-input coherence monitor (temperature/kernel/boundaries passed to the mutation kernel).",
+            "monotonicity, range, the ESS guarantee on every advance and the coherence of recorded beta/ESS/logZ/weights are checked on each transition. Also: a boundary-value family placing the ESS crossing (and beta_prev) inside the last BETA_TOLERANCE cell, every sequence of scripted batch types (depth 4/5) through ONE Reweighter instance, and a kernel-input coherence monitor (temperature/kernel/boundaries passed to the mutation kernel). Integer-typed log-likelihood pools are lattice points. A duo-session phase keeps TWO real samplers alive in one process and explores every interleaving of their iterations and read-only queries (depth 4/5) with the coherence monitor on both.",
             "Trusted: the float reference implementation of the mixture formula (cross-checked against the decimal one by C04). Run-level exploration branches over a finite tape alphabet, not over all real-valued draws.",
             "DESIGN.md §4 C05"),
     "C06": ("model_checking",
@@ -42,20 +42,20 @@ CHECKS = {
             "complete small-scope enumeration of accept masks / -inf masks / replacement answers on the real kernels and mutation step, plus a record-coherence monitor on every step boundary of deviation-bounded runs over a covering array",
             "All 2^6 accept-mask sequences (3 walkers x 2 steps) of both real kernels for every boundary/prior/blob/cluster-count variant, all -inf masks and replacement-index answers of the prior-sampling "
             "mutation (n<=4), and every step-boundary particle set, committed batch and posterior() return of every run in the deviation-bounded tree are checked row by row against pure fixtures "
-            "(x=T(u), logL=f(x), blob=b(x), u in the cube, whole-record moves, append-only history). A session phase drives one sampler object through every save/load/iterate sequence (depth 5/7 + longer roll-back patterns) with the monitors and an accessor oracle (flattened histories, posterior weights, evidence, trimming) after every operation.",
+            "(x=T(u), logL=f(x), blob=b(x), u in the cube, whole-record moves, append-only history). A session phase drives one sampler object through every save/load/iterate sequence (depth 5/7 + longer roll-back patterns) with the monitors and an accessor oracle (flattened histories, posterior weights, evidence, trimming) after every operation; the session alphabet includes a complete run() on the object in whatever state it is.",
             "Trusted: purity/injectivity of the fixtures. Pipeline layer covers option combinations pairwise (quick) / 3-wise (thorough) and a two-symbol tape alphabet per iteration.",
             "DESIGN.md §4 C07"),
     "C08": ("fault_enumeration",
             "crash-point enumeration over the logged raw I/O operations of the real save path on an in-memory file system (every prefix x torn-write offsets), plus restore/resume exploration from every checkpoint of deviation-bounded runs",
             "The real save code runs over an in-memory file system that logs create/write/close/fsync/rename; for a first and an overwriting save in each configuration, every prefix of the log and every torn offset of the in-flight write "
             "is materialised as a crash image whose final name must hold nothing, the complete old or the complete new checkpoint; every checkpoint k written during real runs (clustering, blobs, pool object / real pool, kernel, resampler, progress bar, "
-            "picklable and un-picklable stderr) is loaded into a fresh sampler (bit-equal current+history, n_total) and resumed (numbering k+1, calls, schedule, immutable prefix, run post-conditions). Crash points are enumerated for every checkpoint written by run(save_every)/sample(save_every) themselves as well as for save_state(); every resumed run is also resumed with a 3x larger n_total.",
+            "picklable and un-picklable stderr) is loaded into a fresh sampler (bit-equal current+history, n_total) and resumed (numbering k+1, calls, schedule, immutable prefix, run post-conditions). Crash points are enumerated for every checkpoint written by run(save_every)/sample(save_every) themselves as well as for save_state(); every resumed run is also resumed with a 3x larger n_total, and late checkpoints with a smaller (already satisfied) one.",
             "Trusted: the process-crash model (completed writes persist, in-flight write torn, buffers lost; no power-loss reordering); I/O is intercepted at open/os/pathlib as resolved by tempest.core and tempest.state_manager.", "DESIGN.md §4 C08"),
     "C09": ("model_checking",
             "explicit-state search over all sequences of library operations up to a depth, each executed from two pre-seeds on the real global generator plus once under an auditing tape; triple-run reproducibility over a covering array",
             "All sequences (depth 2 quick / 3 thorough) over 19 public operations (mixture fits, hierarchical fit/predict, mode statistics, Student-t fit, trimming, resampling, the four pipeline steps, sample(), run(), posterior(resample), save, load) "
             "are executed from pre-seeds 101 and 202: the generator state and the next draws afterwards must differ, and no library frame may call np.random.seed when no Sampler random_state is configured; every configuration x random_state "
-            "is run three times in one process (back to back, and after disturbing the global stream) and must be bit-identical, different seeds must differ; inside clustering runs the generator state after every iteration must depend on the pre-seed. A seeding-discipline phase audits every np.random.seed / default_rng call made by library frames during runs with and without random_state, cluster cadences 1-3 and periodic checkpoints.",
+            "is run three times in one process (back to back, and after disturbing the global stream) and must be bit-identical, different seeds must differ; inside clustering runs the generator state after every iteration must depend on the pre-seed. A seeding-discipline phase audits every np.random.seed / default_rng call made by library frames during runs with and without random_state, cluster cadences 1-3 and periodic checkpoints. No-replayed-innovations phases: on a seeded sampler whose stream the harness never re-seeds, every save/load/iterate/run session and every fresh resume from every checkpoint must start each iteration from a generator state never used before for a different history, and must not store the same batch twice; the seed lattice includes 0, 2^31 and 2^32-1.",
             "Trusted: numpy's legacy global generator semantics. Seeding from the user's own Sampler random_state is treated as legitimate.", "DESIGN.md §4 C09"),
     "C10": ("model_checking",
             "paired exploration: every run of a tape-deviation tree is executed twice (log-likelihood f and f+c) under the same owned tape and the two executions are compared at every step boundary (commuting-diagram oracle)",
@@ -77,13 +77,13 @@ CHECKS = {
     "C13": ("model_checking",
             "schedule enumeration: every permutation of the evaluation/completion order of a likelihood batch at every pool.map call of a run (bounded number of deviating calls), differential comparison of step-boundary state digests across evaluation modes under one tape",
             "For one owned random tape the real sampler is run scalar, vectorised, through ordered / lazy / out-of-order pool objects (all 3! / 4! batch permutations at each map call, <=1 deviating call quick, <=2 thorough) "
-            "and through real worker pools of size 1-3; after every pipeline step the complete state digest must equal the serial run's, the final evidence must be bit-identical and `calls` must equal the instrumented evaluation counter. The mode lattice includes bound log_likelihood_args/kwargs, a likelihood with a thin support (discarded warm-up batches) and a corner target with 1-3 walkers.",
+            "and through real worker pools of size 1-3; after every pipeline step the complete state digest must equal the serial run's, the final evidence must be bit-identical and `calls` must equal the instrumented evaluation counter. The mode lattice includes bound log_likelihood_args/kwargs, a likelihood with a thin support (discarded warm-up batches) and a corner target with 1-3 walkers; several samplers sharing one plain likelihood function (different bound arguments) are run serially and with real pools inside one process.",
             "Trusted: purity of the fixture likelihood. Real pool internals are observed, not scheduled.", "DESIGN.md §4 C13"),
     "C14": ("model_checking",
             "environment-answer enumeration with a scripted clusterer (all predicted-label vectors incl. missing labels) through the real Trainer/Resampler/kernel; real-clusterer pool lattice x systematic offsets; cadence x warm-up x cap x resume-from-every-checkpoint exploration with a kernel-entry monitor",
             "All label vectors {0..K-1}^m a K-cluster model can answer for the training pool (m in 4..6, K in 2..3) x all label vectors for 3 resampled particles are pushed through the real Trainer.run / Resampler.run / kernel entry: every label must index an existing valid mode "
             "and that mode must equal the single-cluster fit of exactly the training points with that label; the real clusterer is run on a lattice of weighted blob pools (trimming removes whole blobs) over the systematic-offset partition; "
-            "real runs over cluster_every in {1,2,3,4,5,7} x warm-up length x kernel x normalize x cap (equal and dying modes) are monitored at every kernel entry and resumed from every checkpoint into a fresh sampler. A session phase drives one clustering sampler through save/load/iterate patterns with the monitor armed.",
+            "real runs over cluster_every in {1,2,3,4,5,7} x warm-up length x kernel x normalize x cap (equal and dying modes) are monitored at every kernel entry and resumed from every checkpoint into a fresh sampler. A session phase drives one clustering sampler through save/load/iterate patterns with the monitor armed; the monitor also demands that every active particle carries the label the training model predicts for it (row-wise), and the cadence lattice includes n_particles in {1,2}.",
             "Trusted: C19 (a Student-t location lies in the bounding box of its data) for the pipeline-level 'same cluster' oracle. Pools and targets outside the lattice are not explored.", "DESIGN.md §4 C14"),
     "C15": ("exploration",
             "exhaustive enumeration of a deterministic data lattice x weight lattice x model options on the real mixture / hierarchical models under an owned tape, with invariants and a replication-equivalence differential oracle",
@@ -101,12 +101,12 @@ CHECKS = {
             "explicit-state exploration of all public-operation sequences up to a depth on the real StateManager next to a deep-copy reference model, with np.shares_memory and caller-side overwrites after every accessor; twin-run differential oracle at sampler level",
             "All sequences over 22 public operations (setters, commit, every getter, results, weights, export, import, save/load) up to depth 4 (quick) / 5 (thorough) are replayed on a fresh real object; after every accessor the returned arrays must not share memory "
             "with any internal array and are overwritten by the caller, after every operation internal state and cache must equal the deep-copy model; commits must grow each recorded history by exactly one batch. Sampler layer: all accessor sequences (depth 2/3) between real iterations, "
-            "with overwrites, must leave later iterations bit-identical to an untouched twin run. 'Internal arrays' are all ndarrays reachable from the objects' attributes (any cache); the alphabets include every posterior() option combination and save_state(exclude=...).",
+            "with overwrites, must leave later iterations bit-identical to an untouched twin run. 'Internal arrays' are all ndarrays reachable from the objects' attributes (any cache); the alphabets include every posterior() option combination save_state(exclude=...) and setters fed read-only views of caller-owned buffers.",
             "Trusted: the reference model (dict/list deep copies). copy=False setters are outside the property.", "DESIGN.md §4 C17"),
     "C18": ("model_checking",
             "exhaustive one-factor-at-a-time enumeration of invalid values over 4 base configurations; covering-array exploration (pairwise / 3-wise) of the constructor option product with complete real runs and delta-minimisation of failures",
             "All listed constraint violations x 4 valid bases must be rejected by the constructor with zero likelihood/prior calls; every row of a strength-2 (quick) / strength-3 (thorough) covering array over 14 constructor options "
-            "(incl. pool in {None,1,2,object}, save_every on an in-memory file system, cluster cadence and caps) must construct, run to completion and satisfy the run post-conditions. Valid rows that write checkpoints are also resumed by a fresh sampler; the valid lattice includes three targets, three particle counts and two tapes.",
+            "(incl. pool in {None,1,2,object}, save_every on an in-memory file system, cluster cadence and caps) must construct, run to completion and satisfy the run post-conditions. Valid rows that write checkpoints are also resumed by a fresh sampler; the valid lattice includes three targets, three particle counts and two tapes; boundary index sequences are given as lists, tuples and empty sequences; every valid row is used again after run() (one more sample(), a further run() with a larger target).",
             "Trusted: covering-array generator (its tuple coverage is measured and reported). Higher-order interactions than the stated strength are not covered.", "DESIGN.md §4 C18"),
     "C19": ("exploration",
             "exhaustive enumeration of a deterministic data lattice x transformation-group lattice (scalings, translations, all coordinate permutations) with the untransformed fit as reference",
